@@ -52,6 +52,9 @@ type vcCase struct {
 	World    map[string]*vcCluster  `json:"world"`
 	Ready    bool                   `json:"ready"`
 	Requests []vcRequest            `json:"requests"`
+	// Env: settings supplied through the environment instead of the document, read by viper exactly as main.go sets it
+	// up (SetEnvPrefix("burrow"), key replacer "." / "-" -> "_", AutomaticEnv): e.g. BURROW_SASL_X_PASSWORD
+	Env map[string]string `json:"env"`
 }
 
 type vcResponse struct {
@@ -151,7 +154,7 @@ func (r *vcResponder) stop() {
 	r.wg.Wait()
 }
 
-func vcCoordinator(cfg map[string]interface{}, ready bool) *Coordinator {
+func vcCoordinator(cfg map[string]interface{}, ready bool, env map[string]string) *Coordinator {
 	logLevel := zap.NewAtomicLevelAt(zap.InfoLevel)
 	coordinator := &Coordinator{
 		Log: zap.NewNop(),
@@ -171,6 +174,13 @@ func vcCoordinator(cfg map[string]interface{}, ready bool) *Coordinator {
 	viper.SetConfigType("json")
 	if err := viper.ReadConfig(bytes.NewReader(js)); err != nil {
 		panic(err)
+	}
+	if len(env) > 0 {
+		// as main.go does after reading the file
+		viper.SetDefault("general.env-var-prefix", "burrow")
+		viper.SetEnvPrefix(viper.GetString("general.env-var-prefix"))
+		viper.SetEnvKeyReplacer(strings.NewReplacer(".", "_", "-", "_"))
+		viper.AutomaticEnv()
 	}
 	coordinator.Configure()
 	return coordinator
@@ -229,7 +239,15 @@ func vcRunLine(line string) (res string) {
 	if err := dec.Decode(&c); err != nil {
 		panic(err)
 	}
-	coordinator := vcCoordinator(c.Config, c.Ready)
+	for k, v := range c.Env {
+		os.Setenv(k, v)
+	}
+	defer func() {
+		for k := range c.Env {
+			os.Unsetenv(k)
+		}
+	}()
+	coordinator := vcCoordinator(c.Config, c.Ready, c.Env)
 	resp := vcStartResponder(coordinator.App, c.World)
 	out := make([]vcResponse, len(c.Requests))
 	for i, rq := range c.Requests {
